@@ -40,6 +40,10 @@ def kind_conf(k: dict, api: bool = True, static: list[str] | None = None) -> dic
     }  # fmt: skip
     if k.get('nexthop_ext'):
         n['nexthop'] = ['ipv4 unicast ipv6']
+    if k.get('nexthop_ext_l'):
+        # RFC 8950 for labelled IPv4: one family then carries next hops of two lengths
+        n['caps']['nexthop'] = True
+        n['nexthop'] = n.get('nexthop', []) + ['ipv4 nlri-mpls ipv6']
     if api:
         n['api'] = {'processes': ['h1']}
     if static:
@@ -55,6 +59,8 @@ def kind_speaker_spec(k: dict) -> dict:
         spec['addpath'] = [(a, s_, m) for a, s_ in [(1, 1), (1, 4), (1, 128), (2, 1)] if (a, s_) not in drops]
     if k.get('nexthop_ext'):
         spec['nexthop'] = [(1, 1, 2)]
+    if k.get('nexthop_ext_l'):
+        spec['nexthop'] = spec.get('nexthop', []) + [(1, 4, 2)]
     return spec
 
 
